@@ -7,8 +7,8 @@ git checkout -q -- .
 echo "## apply"; git apply "$SEED/patch.diff" || exit 2
 echo "## build"; go build ./... || { echo BUILD-FAIL; git checkout -q -- .; exit 1; }
 echo "## existing tests with change: $*"; go test -vet=off -count=1 "$@" 2>&1 | grep -v "no test files" | grep -v "^ok" | head -12; echo "(only non-ok lines shown)"
-echo "## demo with change (must FAIL)"; sh "$SEED/demo.sh" > /tmp/demo.out 2>&1; echo "exit=$?"; tail -3 /tmp/demo.out
+echo "## demo with change (must FAIL)"; bash "$SEED/demo.sh" > /tmp/demo.out 2>&1; echo "exit=$?"; tail -3 /tmp/demo.out
 git checkout -q -- .
-echo "## demo without change (must PASS)"; sh "$SEED/demo.sh" > /tmp/demo.out 2>&1; echo "exit=$?"; tail -2 /tmp/demo.out
+echo "## demo without change (must PASS)"; bash "$SEED/demo.sh" > /tmp/demo.out 2>&1; echo "exit=$?"; tail -2 /tmp/demo.out
 rm -rf internal/zzgenrun internal/zzdemo
 git status --short | grep -v SEEDED
